@@ -228,7 +228,7 @@ def gen_history(rnd, nops, geo, strkind=None, ops_weights=None, obs_every=1, nul
     def emit(op, e):
         ops.append(op); exp.append(e)
     emit("reset", "")
-    emit("geo %d %d %d %d" % geo[:4], "")
+    emit("geo %d %d %d %d %d" % geo[:5], "")
 
     def alive(i):
         n, d = refs[i]
@@ -495,7 +495,7 @@ def gen_fault_history(rnd, nops, geo, sess):
         ops.append(op)
         return sess.send(op)
     do("reset")
-    do("geo %d %d %d %d" % geo[:4])
+    do("geo %d %d %d %d %d" % geo[:5])
     armed = False
     fault_doc = rnd.randrange(3)
     arm_at = rnd.randrange(2, max(3, nops // 2))
@@ -569,6 +569,9 @@ def gen_fault_history(rnd, nops, geo, sess):
                 a = str(rnd.randrange(len(LIT)))
             elif k in ("sc", "sv"):
                 a = rnd.choice([b"hi", b"", b"a\x00b", b"lit0", b"123", b"x" * 40, b"key", b"another string"]).hex() or "-"
+                if geo[4] <= 255 and rnd.random() < 0.25:
+                    # the string length limit is a failure of its own kind: no allocator call, the document is flagged
+                    a = (b"L" * rnd.choice([geo[4] - 1, geo[4], geo[4] + 1, geo[4] + 1, geo[4] + 40])).hex()
             elif k == "raw":
                 a = rnd.choice([b"[1,2]", b"{}"]).hex()
             elif k == "ref":
@@ -587,7 +590,10 @@ def gen_fault_history(rnd, nops, geo, sess):
             do("%s %d %s %s" % (op, r, k, a))
         elif op == "setm" and usable:
             k, a = rnd.choice([("null", "-"), ("i", "42"), ("sc", "7a7a"), ("sl", "1"), ("d", "3fb999999999999a"), ("sc", (b"y" * 33).hex())])
-            do("setm %d %s %s %s" % (prefer(usable, "ON"), rnd.choice(KEYS).hex() or "-", k, a))
+            key = rnd.choice(KEYS)
+            if geo[4] <= 255 and rnd.random() < 0.15:
+                key = b"K" * rnd.choice([geo[4], geo[4] + 1])        # a key at / beyond the longest storable length
+            do("setm %d %s %s %s" % (prefer(usable, "ON"), key.hex() or "-", k, a))
         elif op == "sete" and usable:
             k, a = rnd.choice([("null", "-"), ("i", "-7"), ("sc", "7171")])
             do("sete %d %d %s %s" % (prefer(usable, "AN"), rnd.choice([0, 1, 3, 6]), k, a))
